@@ -292,8 +292,10 @@ func (pe *parityEval) run(fn *ssa.Function, lens map[ssa.Value]int64, env map[ss
 					if o&outPanic != 0 {
 						out |= outPanic
 					}
-					// the callee performs the computation: the prefix ends here
-					if len(clens) > 0 {
+					// the callee performs the computation: the prefix ends here (a callee whose
+					// result is used — a predicate such as sameLength(n, others...) — is part of
+					// the entry decisions, its value is simply unknown)
+					if refs := x.Referrers(); len(clens) > 0 && (refs == nil || len(*refs) == 0) {
 						out |= outNoPanic
 						return
 					}
